@@ -24,7 +24,7 @@ from engine.chx import Assume, Violation, reach
 
 PROPERTY = 'C17'
 LEVEL = 'model_checking'
-REACH_POINTS = ['program.scope_object_used', 'program', 'program.exception', 'thread.observed']
+REACH_POINTS = ['program.scope_object_used', 'program.exit_callback_raised', 'program', 'program.exception', 'thread.observed']
 
 P = pg_perm.CodePermission
 
@@ -48,6 +48,53 @@ def raising_dst(cls, *args, **kwargs):
 
 def ok_dst(cls, *args, **kwargs):
   return DstB()
+
+
+class ExitBoom(Exception):
+  """Raised by a scope's own exit callback (after the block ended normally)."""
+
+
+def _raise_exit_boom():
+  raise ExitBoom()
+
+
+def _ev1(x):
+  return 1
+
+
+def _ev2(x):
+  return 2
+
+
+_EVAL_FNS = {'f1': _ev1, 'f2': _ev2, 'f3': _ev1}
+
+
+def _dyn_eval(arg):
+  name, exit_raises = arg
+  return pg.hyper.dynamic_evaluate(_EVAL_FNS[name], exit_fn=_raise_exit_boom if exit_raises else None)
+
+
+def _dyn_eval_name():
+  from pyglove.core.hyper import base as hyper_base
+  fn = hyper_base.get_dynamic_evaluate_fn()
+  for k in ('f1', 'f2'):
+    if fn is _EVAL_FNS[k]:
+      return k
+  return None if fn is None else repr(fn)
+
+
+class OnDemand1:
+  pass
+
+
+class OnDemand2:
+  pass
+
+
+def _ondemand_names():
+  reg = pgu.JSONConvertible._TYPE_REGISTRY        # pylint: disable=protected-access
+  stack = reg._ondemand_registry_stack            # pylint: disable=protected-access
+  return sorted(stack[-1]) if stack else []
 
 
 def _timing_name():
@@ -88,7 +135,14 @@ def _rows():
       ('detour', lambda m: pg.detour(m), [[(SrcA, DstB)], [(SrcA, DstC)], [(SrcA, raising_dst)], [(SrcA, ok_dst)]],
        lambda: {k.__name__: getattr(v, '__name__', str(v)) for k, v in class_detour.current_mappings().items()}, 'detour', {}),
       ('timeit', pg_timing.timeit, ['t1', 't2'], _timing_name, 'timeit', ()),
+      ('dynamic_evaluate', _dyn_eval, [('f1', False), ('f2', False), ('f3', True)], _dyn_eval_name, 'dyn_eval', None),
+      ('ondemand_types', lambda ts: pgu.JSONConvertible.load_types_for_deserialization(*ts),
+       [(OnDemand1,), (OnDemand2,), (OnDemand1, OnDemand2)], _ondemand_names, 'type_names', []),
   ]
+
+
+# documented as process-wide: observable from other threads by design (restoration is still required)
+PROCESS_WIDE = {'ondemand_types'}
 
 
 ROWS = _rows()
@@ -123,6 +177,10 @@ def _expected(name, rule, default, stack):
     return out
   if rule == 'timeit':
     return tuple(mine)
+  if rule == 'dyn_eval':
+    return {'f1': 'f1', 'f2': 'f2', 'f3': 'f1'}[mine[-1][0]]
+  if rule == 'type_names':
+    return sorted({t.__name__ for ts in mine for t in ts})
   raise AssertionError(rule)
 
 
@@ -204,6 +262,8 @@ def h_program(params, m2, m3, a1, a2, a3, depth, raise_at_end, catch_level, chec
         problems.append(('thread:observer_raised', box['err']))
         return
       for name in NAMES:
+        if name in PROCESS_WIDE:
+          continue
         if box['obs'][name] != defaults[name]:
           problems.append((f'thread:setting_leaked:{name}', f'{where}: other thread observes {box["obs"][name]!r}'))
           return
@@ -222,6 +282,14 @@ def h_program(params, m2, m3, a1, a2, a3, depth, raise_at_end, catch_level, chec
         raise Boom()
       return
     row, arg = prog[k]
+    try:
+      _run_level(k, stack, row, arg)
+    except ExitBoom:
+      # the scope's own exit callback failed after the block had ended normally: the scope is left all the same
+      reach('program.exit_callback_raised')
+      check(stack, f'after_exit_callback_raised:{k}')
+
+  def _run_level(k, stack, row, arg):
     with row[1](arg) as scope_obj:
       stack2 = stack + [(row[0], arg)]
       check(stack2, f'after_enter:{k}')
